@@ -109,6 +109,10 @@ def canon(tree):
             # ellipsis ids are not part of the notation either (a distributed "n..." keeps one id, its printed
             # top-level form has one per tensor; all are tied together by the axis name anyway)
             return ("Ellipsis", rec(e.inner))
+        if isinstance(e, stage1.FlattenedAxis) and isinstance(e.inner, stage1.ConcatenatedAxis):
+            # "((a + b))" is "(a + b)": the parser itself collapses the doubled parentheses, but a distributed
+            # "((a + b), c)" keeps a composition around the single concatenated axis; same meaning, same printed form
+            return rec(e.inner)
         if isinstance(e, (stage1.FlattenedAxis, stage1.Brackets)):
             return (type(e).__name__, rec(e.inner))
         return (type(e).__name__, tuple(rec(c) for c in e.children))
@@ -145,7 +149,7 @@ def check_string(s, stats, do_spacing=True, count_only=False):
                 return [Violation("C12|quote|parse", f"SyntaxError for {s!r} quotes a different expression: {msg[:300]}")]
         if pos is not None and any(p < 0 or p >= len(s) for p in pos):
             return [Violation("C12|caret|parse", f"SyntaxError for {s!r} has marker positions {pos} outside the string")]
-        if "Expression:" in msg:
+        if "Expression:" in msg and "\n" not in s and "\r" not in s:  # a line break inside the quoted string breaks the line-wise reading
             lines = msg.split("\n")
             for i, line in enumerate(lines):
                 if line.startswith('Expression: "') and i + 1 < len(lines):
